@@ -66,7 +66,7 @@ def _resolve_family(tier, seed):
     return [{"ref_frags": s, "lenient_fn": lf} for s in shapes for lf in (False, True)]
 
 
-@harness(props=["C10"], strength="E", family=_resolve_family,
+@harness(props=["C10", "C18"], strength="E", family=_resolve_family,
          functions=[OdxLinkDatabase.resolve, OdxLinkDatabase.resolve_lenient], covers=["found", "not-found"])
 def resolve_contract(ref_frags, lenient_fn):
     """resolve(ref) returns the object stored under ref.ref_id in the innermost (last listed) fragment of ref.ref_docs
@@ -105,7 +105,7 @@ def resolve_contract(ref_frags, lenient_fn):
         H.check("C10:dangling-reference-binds-to-nothing", r is None)
     else:
         H.cover("found")
-        H.check("C10:reference-binds-to-the-object-carrying-the-id-in-the-innermost-fragment", r is expected)
+        H.check("C10,C18:reference-binds-to-the-object-carrying-the-id-in-the-innermost-fragment", r is expected)
         if expect_type is not None and not isinstance(expected, Thing):
             H.check("C10:wrong-type-is-an-error-in-strict-mode", H.Not(strict))
     H.check("frame:database-unchanged", _same_view(db, snap))
@@ -178,6 +178,39 @@ def reference_construction(docref, doctype, idref):
     H.check("C10:equal-ids-are-equal-and-hash-equal", H.And(a == b, hash(a) == hash(b), not (a == c), not (a == "x")))
     r2 = OdxLinkRef.from_id(a)
     H.check("C10:from-id-refers-to-the-id", H.And(r2.ref_id == a.local_id, r2.ref_docs == a.doc_fragments))
+
+
+from odxtools.diagcomm import RelatedDiagCommRef  # noqa: E402
+from odxtools.dynenddopref import DynEndDopRef  # noqa: E402
+
+
+@harness(props=["C10"], strength="E", family=lambda t, s: [{"kind": k, "docref": d} for k in ("related-diag-comm", "dyn-end-dop")
+                                                            for d in (None, "other")],
+         functions=[RelatedDiagCommRef.from_et, DynEndDopRef.from_et, OdxLinkRef.from_et], covers=["ref"])
+def specialised_references_keep_the_target_document(kind, docref):
+    """the reference classes with additional content (RELATED-DIAG-COMM-REF, DYN-END-DOP-REF) refer to the same
+    document as a plain reference with the same attributes: DOCREF present -> exactly that document, absent -> the
+    referring document's fragments"""
+    attrib = {"ID-REF": "target"}
+    if docref is not None:
+        attrib["DOCREF"] = docref
+        attrib["DOCTYPE"] = "CONTAINER"
+    et = ElementTree.Element("SOME-REF", attrib)
+    if kind == "related-diag-comm":
+        ElementTree.SubElement(et, "RELATION-TYPE").text = "PRE-CONDITION"
+        ref = RelatedDiagCommRef.from_et(et, [FRAGS[0], FRAGS[1]])
+        H.check("C10:additional-content-is-kept", ref.relation_type == "PRE-CONDITION")
+    else:
+        ElementTree.SubElement(et, "TERMINATION-VALUE").text = "0xFF"
+        ref = DynEndDopRef.from_et(et, [FRAGS[0], FRAGS[1]])
+        H.check("C10:additional-content-is-kept", ref.termination_value_raw == "0xFF")
+    H.cover("ref")
+    plain = OdxLinkRef.from_et(et, [FRAGS[0], FRAGS[1]])
+    H.check("C10:reference-carries-the-id", ref.ref_id == "target")
+    H.check("C10:docref-selects-exactly-the-referenced-document",
+            H.And(ref.ref_docs == plain.ref_docs,
+                  ref.ref_docs == ([OdxDocFragment(docref, DocType.CONTAINER)] if docref is not None
+                                   else [FRAGS[0], FRAGS[1]])))
 
 
 class Named:
